@@ -10,6 +10,7 @@
 package walkctl
 
 import (
+	"context"
 	"errors"
 	"fmt"
 	"strings"
@@ -39,7 +40,7 @@ func (S) Level() string { return "fault_enumeration" }
 
 func (S) Info() scen.Info {
 	return scen.Info{
-		Rule: "unit = seeded (DAG of 1-10 blocks with shared, repeated and dangling links; selector built with the repository's selector builder). Per unit: the unrestricted WalkAdv trace W0 (V visits, K block loads) is recorded, then one run per control position: NodeBudget 0..V+1, LinkBudget 0..K+1, StartAtPath = path of every visit (as Path and re-parsed from its string), SkipMe for every distinct link and seeded subsets, LinkVisitOnlyOnce, budget-then-resume for every N, each also under WalkMatching. " +
+		Rule: "unit = seeded (DAG of 1-10 blocks with shared, repeated and dangling links; selector built with the repository's selector builder). Per unit: the unrestricted WalkAdv trace W0 (V visits, K block loads) is recorded, then one run per control position: NodeBudget 0..V+1, LinkBudget 0..K+1, StartAtPath = path of every visit (as Path and re-parsed from its string), SkipMe for every distinct link and seeded subsets, LinkVisitOnlyOnce, budget-then-resume for every N, each also under WalkMatching; the transforming walk under NodeBudget 0..V+1 (callbacks must be a prefix of the unrestricted run's, with a budget error whenever the budget is smaller than the number of callbacks); in half of the units the store offers only Has/Get, so blocks and SkipMe travel through storage.GetStream's fallback. " +
 			"distinct_nontrivial counts distinct hash(W0 shape, control, position, outcome) over runs whose control actually cut the walk (restricted trace != W0).",
 		DistinctSet: "cut",
 		Assumptions: []string{
@@ -56,7 +57,7 @@ func (S) Info() scen.Info {
 			"goroutine scheduling":   "stub: single walker task under the seeded scheduler",
 		},
 		QuickUnits: 1500, ThoroughUnits: 150000, QuickSecs: 50, ThoroughSecs: 1200,
-		ProbeKeys: []string{"probe.budget_cut_mid_block", "probe.linkbudget_cut", "probe.startat_inside_linked_block", "probe.startat_skipped_load", "probe.once_pruned", "probe.skipme_pruned", "probe.resume_concat_checked", "probe.w0_ended_in_error", "probe.repeated_link", "probe.matching_walk"},
+		ProbeKeys: []string{"probe.budget_cut_mid_block", "probe.linkbudget_cut", "probe.startat_inside_linked_block", "probe.startat_skipped_load", "probe.once_pruned", "probe.skipme_pruned", "probe.resume_concat_checked", "probe.w0_ended_in_error", "probe.repeated_link", "probe.matching_walk", "probe.transform_budget_cut"},
 		EventsKey: "events",
 	}
 }
@@ -167,6 +168,22 @@ func firstDiff(a, b []ev) string {
 
 // ---- selectors ----
 
+// skipStore is a store that offers only Has and Get (the shape of the adapter stores):
+// the link system reaches it through storage.GetStream's fallback. It answers
+// traversal.SkipMe for the links it is told to skip.
+type skipStore struct {
+	inner *memstore.Store
+	w     *world
+}
+
+func (s skipStore) Has(ctx context.Context, k string) (bool, error) { return s.inner.Has(ctx, k) }
+func (s skipStore) Get(ctx context.Context, k string) ([]byte, error) {
+	if s.w.skip[k] {
+		return nil, traversal.SkipMe{}
+	}
+	return s.inner.Get(ctx, k)
+}
+
 type world struct {
 	s    *sim.Sim
 	t    *sim.Tape
@@ -231,7 +248,7 @@ func (w *world) walk(matching bool, budget *traversal.Budget, startAt datamodel.
 	return res
 }
 
-var ctlNames = []string{"none", "NodeBudget", "LinkBudget", "StartAtPath", "LinkVisitOnlyOnce", "SkipMe", "Resume"}
+var ctlNames = []string{"none", "NodeBudget", "LinkBudget", "StartAtPath", "LinkVisitOnlyOnce", "SkipMe", "Resume", "TransformNodeBudget"}
 
 func (S) RunTape(t *sim.Tape, st *sim.Stats, keepLog bool) *sim.Outcome {
 	o := &sim.Outcome{}
@@ -241,7 +258,12 @@ func (S) RunTape(t *sim.Tape, st *sim.Stats, keepLog bool) *sim.Outcome {
 	w := &world{s: s, t: t}
 	ms := &memstore.Store{}
 	w.lsys = cidlink.DefaultLinkSystem()
-	w.lsys.SetReadStorage(ms)
+	basicStore := t.Bool("cfg.basicstore")
+	if basicStore {
+		w.lsys.SetReadStorage(skipStore{ms, w})
+	} else {
+		w.lsys.SetReadStorage(ms)
+	}
 	w.lsys.SetWriteStorage(ms)
 	w.seam = &simstore.Seam{S: s, T: t}
 	w.seam.Wrap(&w.lsys)
@@ -272,7 +294,7 @@ func (S) RunTape(t *sim.Tape, st *sim.Stats, keepLog bool) *sim.Outcome {
 		*w.cur = append(*w.cur, ev{K: 'l', Segs: segsOf(lc.LinkPath), Path: lc.LinkPath.String(), Link: l.Binary(), P: lc.LinkPath})
 	}
 	w.seam.NextRead = func(l datamodel.Link) *simstore.ReadFault {
-		if w.skip[l.Binary()] {
+		if w.skip[l.Binary()] && !basicStore {
 			return &simstore.ReadFault{Kind: "skip", SkipErr: traversal.SkipMe{}, Err2At: -1}
 		}
 		return &simstore.ReadFault{Err2At: -1, Chunk: chunk}
@@ -566,6 +588,62 @@ func (S) RunTape(t *sim.Tape, st *sim.Stats, keepLog bool) *sim.Outcome {
 			if cut {
 				st.Inc("probe.skipme_pruned")
 			}
+		case 7: // the transforming walk under a node budget
+			if w0.err != nil || matching {
+				return
+			}
+			tw := func(b *traversal.Budget) (paths []string, err error, pan string) {
+				cfg := &traversal.Config{LinkSystem: w.lsys, LinkTargetNodePrototypeChooser: func(datamodel.Link, linking.LinkContext) (datamodel.NodePrototype, error) {
+					return basicnode.Prototype.Any, nil
+				}}
+				func() {
+					defer func() {
+						if r := recover(); r != nil {
+							if _, ok := r.(interface{ IsStepCap() }); ok {
+								panic(r)
+							}
+							pan = fmt.Sprint(r)
+						}
+					}()
+					scratch := []ev{}
+					w.cur = &scratch
+					_, err = traversal.Progress{Cfg: cfg, Budget: b}.WalkTransforming(w.g.RootNode, w.sel, func(p traversal.Progress, n datamodel.Node) (datamodel.Node, error) {
+						paths = append(paths, p.Path.String())
+						return n, nil // identity: the walk goes on below
+					})
+				}()
+				return
+			}
+			t0, err0, pan0 := tw(nil)
+			if pan0 != "" || err0 != nil || len(t0) > 200 {
+				return // no reference run to compare with
+			}
+			N := pos
+			if N > len(t0)+1 {
+				return
+			}
+			got, err, pan := tw(&traversal.Budget{NodeBudget: int64(N), LinkBudget: 1 << 40})
+			var be *traversal.ErrBudgetExceeded
+			isBudget := errors.As(err, &be)
+			switch {
+			case pan != "":
+				o.Fail("panic", sig, "WalkTransforming with NodeBudget=%d panicked: %s", N, pan)
+			case len(got) > len(t0) || strings.Join(got, "\x00") != strings.Join(t0[:len(got)], "\x00"):
+				o.Fail("restricted-walk-differs", sig, "WalkTransforming with NodeBudget=%d handed its callback %q, which is not a prefix of the unrestricted run's %q", N, got, t0)
+			case err == nil && len(got) != len(t0):
+				o.Fail("restricted-walk-differs", sig, "WalkTransforming with NodeBudget=%d returned no error but made %d of %d callbacks", N, len(got), len(t0))
+			case err != nil && !isBudget:
+				o.Fail("restricted-walk-error", sig, "WalkTransforming with NodeBudget=%d failed with %v (the unrestricted run succeeds)", N, err)
+			case N < len(t0) && err == nil:
+				// every callback is for a node the walk entered: fewer nodes than callbacks cannot suffice
+				o.Fail("restricted-walk-error", sig, "WalkTransforming made %d callbacks under NodeBudget=%d and reported no budget error", len(got), N)
+			case N < len(t0) && len(got) > N:
+				o.Fail("restricted-walk-differs", sig, "WalkTransforming made %d callbacks under NodeBudget=%d", len(got), N)
+			}
+			if err != nil {
+				cut = true
+				st.Inc("probe.transform_budget_cut")
+			}
 		case 6: // budget N, then resume at the path the error carries
 			N := pos
 			if N >= info.V || matching {
@@ -671,5 +749,11 @@ func (S) Unit(u *scen.Unit) {
 	for n := 0; n < bi.V; n++ {
 		u.Exec(map[string]int{"ctl.kind": 6, "ctl.pos": n, "ctl.matching": 0})
 		u.St.Inc("enum.resume")
+	}
+	if !bi.Err0 {
+		for n := 0; n <= bi.V+1 && n < 60; n++ {
+			u.Exec(map[string]int{"ctl.kind": 7, "ctl.pos": n, "ctl.matching": 0})
+			u.St.Inc("enum.transform_budget")
+		}
 	}
 }
